@@ -10,24 +10,35 @@
 (*   opts    the [tool.black] options of the project (an abstract id;      *)
 (*           0 = black's defaults)                                         *)
 (*   cwd     where the session is started: "root" | "sub" | "outside"      *)
+(*   loc     where the [tool.black] options are written relative to the    *)
+(*           file: "own" (the pyproject.toml of its project), "outer" (one *)
+(*           directory further up; the nearest pyproject.toml has no       *)
+(*           [tool.black] section, black skips it), "gitstop" (further up, *)
+(*           but the project directory holds a .git: black stops there and *)
+(*           uses its defaults)                                            *)
 (*   shape   how the generated value relates to the line limit             *)
 (* The formatter is an environment: Fmt(text, opts) is idempotent and only *)
 (* changes layout (measured, not assumed, by the harness).                 *)
 (***************************************************************************)
 EXTENDS Naturals, FiniteSets, TLC
-CONSTANTS OptIds, FromFile    \* FromFile: the options are looked up from the file's project (since fix F14)
+CONSTANTS OptIds, FromFile,   \* FromFile: the options are looked up from the file's project (since fix F14)
+          LookupLikeBlack     \* as coded (TRUE): black.find_pyproject_toml; design alternative: the nearest pyproject.toml
 
-\* the options the tool formats with
-OptsUsed(c) == IF FromFile \/ c.cwd # "outside" THEN c.opts ELSE 0
+\* the options black itself would use for the file (the file is `clean` with respect to these)
+EffOpts(c) == IF c.loc = "gitstop" THEN 0 ELSE c.opts
+\* the options the tool formats with: black's own lookup (LookupLikeBlack), otherwise the nearest pyproject.toml
+OptsUsed(c) == IF ~(FromFile \/ c.cwd # "outside") THEN 0
+               ELSE IF LookupLikeBlack THEN EffOpts(c)
+               ELSE (IF c.loc = "own" THEN c.opts ELSE 0)
 \* is the file clean in the eyes of the tool (it compares the file with ITS formatting of it)
-SeenClean(c) == c.clean /\ OptsUsed(c) = c.opts
+SeenClean(c) == c.clean /\ OptsUsed(c) = EffOpts(c)
 \* whole-file formatting applies iff a format-command is set or the file is clean
 Reformat(c) == c.fmtcmd \/ SeenClean(c)
 \* after the rewrite: is the file clean for the options of its project?
 \*   re-formatted with the right options -> clean; not re-formatted -> the inserted fragment was formatted on its
 \*   own, the statement around it is not re-wrapped: clean only if the new value needs no re-wrapping
 CleanAfter(c) == IF c.fmtcmd THEN c.clean            \* the command is the user's formatter: out of black's hands
-                 ELSE IF Reformat(c) THEN OptsUsed(c) = c.opts
+                 ELSE IF Reformat(c) THEN OptsUsed(c) = EffOpts(c)
                  ELSE FALSE
 \* layout outside the edited arguments is left alone iff the file is not re-formatted
 OutsideUntouched(c) == ~Reformat(c)
